@@ -113,7 +113,7 @@ partial def opOfJson (op : Json) : Op :=
       (valOfJson (jfield op "val"))
   | "interactive" => .interactive (jbool (jfield op "on"))
   | "macrolookup" => .macroLookup (jstr (jfield op "name"))
-  | "singleton" => .singleton (jstr (jfield op "key")) (jbool (jfield op "ctor"))
+  | "singleton" => .singleton (jstr (jfield op "key")) (jbool (jfield op "ctor")) (jbool (jfield op "none"))
   | "enter" => .enter (jstrs (jfield op "cur")) (scopeArgOfJson (jfield op "arg"))
   | "parse" =>
     let f := jfield op "file"
